@@ -105,6 +105,11 @@ class ExprMixin(object):
             else:
                 yield self.new_list(s, PyListV(vs))
 
+    def ev_Set(self, n, st):
+        # a set display is only used for membership tests in the code under contract
+        for s, vs in self.evs(n.elts, st):
+            yield s, (vs if is_exc(vs) else TupV(vs))
+
     def ev_Dict(self, n, st):
         if all(isinstance(k, ast.Constant) for k in n.keys):
             for s, vs in self.evs(n.values, st):
@@ -322,6 +327,15 @@ class ExprMixin(object):
         if isinstance(box, RefV):
             if box.kind == 'rec':
                 if isinstance(x, ConstV) and isinstance(x.py, str):
+                    if '.' in x.py:
+                        # dotdict: 'a.b' in d  ==  'a' in d and 'b' in d.a
+                        cur, conds = box, []
+                        for part in x.py.split('.'):
+                            if not (isinstance(cur, RefV) and cur.kind == 'rec'):
+                                return z3.BoolVal(False)
+                            conds.append(self.rec_has(st, cur, part))
+                            cur = st.heap.get((cur.id, part), (None, None))[1]
+                        return z3.And(*conds)
                     return self.rec_has(st, box, x.py)
                 raise Unsupported('`in` record with a symbolic key')
             if box.kind == 'list':
